@@ -43,7 +43,8 @@ def plan(tier, seed):
             if kind in ('gmm',) or (kind == 'gcacgmm' and False):
                 continue
             cases.append(dict(lane='mixture', kind=kind, cls='gauss', K=K, N=N, D=D, lead=lead, init=pick(['dirichlet:1', 'blur:0.3', 'onehot', 'num_classes']),
-                              iters=iters, opts=o, gain=pick(GK), decades=float(pick([100, 100, 60, 30])), stream=stream, layout=pick(['c', 'c', 'tview', 'f']), rs=[seed, 4, i]))
+                              iters=iters, opts=o, gain=pick(GK), decades=float(pick([100, 100, 60, 30])), stream=stream, layout=pick(['c', 'c', 'tview', 'f']),
+                              e_dtype='f32' if (kind in models.INTEGRATION and stream == 'spatial' and rng.uniform() < 0.3) else 'f64', rs=[seed, 4, i]))
             i += 1
     m = S(tier, 25, 250)
     for fam in ('cacg', 'watson', 'bingham', 'vmf'):
@@ -193,6 +194,19 @@ def run_mixture(case, R):
           dev=dev, opts=case['opts'], gain=case['gain'])
     w, name = diff.compare(diff.functionals(m1), diff.functionals(m2), rtol=rtol_par, atol=rtol_par)
     judge('C04.params', w, 1.0, 'par', f'params/{kind}/{case["stream"]}', f'{kind}: fitted {name} changes under rescaling (ratio to tolerance {w:.3g})', worst=w, field=name, opts=case['opts'])
+    if kind == 'cbmm':
+        # CBMM.predict is the only predict with a public affiliation_eps: the clipped posterior of the very same model must not see the gains either
+        for eps in (1e-10, 1e-3):
+            try:
+                with instr.options(**dict(s.copts, affiliation_eps=eps)):
+                    q1 = np.asarray(m1.predict(s.data['y'], affiliation_eps=eps)); q2 = np.asarray(m1.predict(d2['y'], affiliation_eps=eps))
+            except Exception as e:
+                if not instr.is_library_exception(e):
+                    raise
+                R.count(f'cbmm.predict(affiliation_eps) raised {type(e).__name__}')
+                continue
+            dq = float(np.abs(q1 - q2).max())
+            judge('C04.posterior', dq, tol_post, 'post', 'predict-eps/cbmm/spatial', f'cbmm.predict(affiliation_eps={eps}) of one model changes by {dq:.3e} under per-observation rescaling', dev=dq, eps=eps, gain=case['gain'])
     for a, b in zip(ev1[1:], ev2[1:]):
         dv = float(np.abs(a['affiliation'] - b['affiliation']).max())
         judge('C04.trace', dv, tol_post * 10, 'trace', f'trace/{kind}/{case["stream"]}', f'{kind}: in-loop posterior of iteration {a["iteration"]} changes by {dv:.3e} under rescaling', dev=dv)
